@@ -10,5 +10,5 @@ trap 'git -C /repo worktree remove --force "$W" >/dev/null 2>&1' EXIT
 export GOFLAGS=-mod=mod GOPROXY=off GOSUMDB=off GOTOOLCHAIN=local GOWORK=off
 (cd "$W" && go build ./... ) || { echo "does not build"; exit 3; }
 for p in "$@"; do
-  /verif/bin/stackcheck -verif "$W" -repo "$W" -prop "$p" -evidence "$W/ev.json" 2>&1 | grep -E "violated|undecided|^property=" | sed "s#$W#SCRATCH#g" | cut -c1-260
+  /verif/bin/stackcheck -verif /verif -repo "$W" -prop "$p" -evidence "$W/ev.json" 2>&1 | grep -E "violated|undecided|^property=" | sed "s#$W#SCRATCH#g" | cut -c1-260
 done
